@@ -1,7 +1,7 @@
 From Coq Require Import List NArith ZArith Bool.
 From SK Require Import lib.LGraph lib.Mono.
 From SK Require model.C06_Model model.C11_Model.
-From SK Require Import model.C03_Model model.C05_Model proof.C05_Proof proof.C05_Glue proof.C05_Pipe proof.C05_Prep proof.C05_Comp proof.C05_Main proof.C05_Order proof.C05_Sub proof.C05_Set proof.C05_Result proof.C05_AllStrat proof.C05_PrepOrder proof.C05_Final proof.C05_Default proof.C05_Rewrite proof.C05_Capstone proof.C05_Refuted proof.C05_Cap proof.C05_AnyCap proof.C05_Partial proof.C05_PartialOrder proof.C05_PartialCap proof.C05_Thms.
+From SK Require Import model.C03_Model model.C05_Model proof.C05_Proof proof.C05_Glue proof.C05_Pipe proof.C05_Prep proof.C05_Comp proof.C05_Main proof.C05_Order proof.C05_Sub proof.C05_Set proof.C05_Result proof.C05_AllStrat proof.C05_PrepOrder proof.C05_Final proof.C05_Default proof.C05_Rewrite proof.C05_Capstone proof.C05_Refuted proof.C05_Cap proof.C05_AnyCap proof.C05_Partial proof.C05_PartialOrder proof.C05_PartialCap proof.C05_Prefilter proof.C05_PrefilterOrder proof.C05_Thms.
 From SK Require Import lib.C06_Spec proof.C06_Comp.
 From SK Require proof.C11_Dedup.
 From Coq Require Import Permutation.
@@ -564,3 +564,91 @@ Theorem C05_partial_matches_order_independent :
     end.
 Proof. exact thm_partial_matches_order_independent. Qed.
 Print Assumptions C05_partial_matches_order_independent.
+
+(** 18. SynReactor(embed_pre_filter = True): the first search runs with the cheap pre-filter of find_subgraph_mappings (the
+    re-match on the explicit-hydrogen path never does).  [matches_pf pref] / [glued_of_pf pref] are the raw matches and
+    glued graphs under the option ([pref = false]: the definitions of the other sections).  The guard can only EMPTY the
+    result; its decision (C06's [quick_pre_filter]: some pattern atom without candidate, or the product of the per-atom
+    candidate counts above cap * 10000) commutes with every injective renumbering of substrate and pattern, and so do
+    the raw matches and the glued graphs under the option — every strategy, every cap.  Re-ordering: section 19. *)
+Theorem C05_prefilter_guard :
+  forall (TH : Thr),
+  (forall strat host pat, matches_pf false strat host pat = matches strat host pat) /\
+  (forall strat host pat,
+     matches_pf true strat host pat
+     = if C06_Model.quick_pre_filter (host_c06 host) (pat_c06 pat) thr_val then [] else matches strat host pat) /\
+  (forall strat host p,
+     glued_of_pf true strat host p = if prefilter_fires host p then [] else glued_of strat host p) /\
+  (forall (sg pi : N -> N), inj sg -> inj pi ->
+   forall (H P : C06_Model.graph) thr,
+     C06_Model.quick_pre_filter (relabel pi H) (relabel sg P) thr = C06_Model.quick_pre_filter H P thr) /\
+  (forall (pref : bool) (strat : N) (sg pi : N -> N), inj sg -> inj pi ->
+   forall (host : hostg) (pat : molg),
+     matches_pf pref strat (relabel pi host) (relabel sg pat) = map (mv sg pi) (matches_pf pref strat host pat)) /\
+  (forall (pref : bool) (strat : N) (sg pi : N -> N), inj sg -> inj pi ->
+   forall (host : hostg) (p : prepared), p_flag p = false ->
+     glued_of_pf pref strat (relabel pi host) (relabel_prep sg p) = map (relabel pi) (glued_of_pf pref strat host p)).
+Proof. exact thm_prefilter. Qed.
+Print Assumptions C05_prefilter_guard.
+
+(** 19. The decision of the pre-filter does not depend on how substrate and pattern are WRITTEN (any insertion order of atoms
+    and bonds, any orientation of the stored bonds): the loop multiplies the per-atom candidate counts in the order of
+    the pattern's atoms and leaves early, yet its outcome is a function of the multiset of counts ("some count is zero,
+    or the whole product exceeds cap * 10000"), each count is a number of substrate atoms with a property of labels and
+    degrees, and the degree of an atom is the number of its neighbours whatever the order of a simple bond list
+    (premise [wfb]: distinct atoms, simple bond list — C06_input_premise_monitor).  So when the guard fires for one
+    writing it fires, and empties the result, for every other writing — every strategy, every cap. *)
+Theorem C05_prefilter_decision_invariant :
+  forall (TH : Thr) (host host' : hostg) (p p' : prepared),
+    same_graph host host' -> same_graph (p_pat p) (p_pat p') ->
+    C06_Model.wfb (host_c06 host) = true -> C06_Model.wfb (host_c06 host') = true ->
+    C06_Model.wfb (pat_c06 (p_pat p)) = true -> C06_Model.wfb (pat_c06 (p_pat p')) = true ->
+    prefilter_fires host' p' = prefilter_fires host p /\
+    (forall strat, p_flag p = false -> p_flag p' = false ->
+       prefilter_fires host p = true -> glued_of_pf true strat host p = [] /\ glued_of_pf true strat host' p' = []).
+Proof. exact thm_prefilter_decision_invariant. Qed.
+Print Assumptions C05_prefilter_decision_invariant.
+
+(** 20. The first clause of the property for the exhaustive strategy at graph level, for EVERY configuration of the two guards:
+    any embedding cap ([TH]) and the pre-filter on or off ([pref]) — substrate and rule renumbered by (sg, pi) and re-ordered
+    in any way (nodes, bonds, bond orientations of substrate, rule graph and pattern): the glued ITS graphs of the two writings
+    correspond one to one up to [obs_eq].  No premise about the cap or the guard: by 14 and 19 both writings are stopped by the
+    same guard (two empty lists) or by none (section 7).  Premises: [side_okb0] (14e) and [wfb] (19), evaluated per writing. *)
+Theorem C05_result_set_invariant_exhaustive_any_options :
+  forall (TH : Thr) (pref : bool) (sg pi : N -> N), inj sg -> inj pi ->
+  forall (host host'' : hostg) (p p'' : prepared),
+    side_okb0 (relabel pi host) (relabel_prep sg p) = true -> side_okb0 host'' p'' = true ->
+    C06_Model.wfb (host_c06 (relabel pi host)) = true -> C06_Model.wfb (host_c06 host'') = true ->
+    C06_Model.wfb (pat_c06 (p_pat (relabel_prep sg p))) = true -> C06_Model.wfb (pat_c06 (p_pat p'')) = true ->
+    same_graph (relabel pi host) host'' -> same_graph (relabel sg (p_rc p)) (p_rc p'') ->
+    same_graph (relabel sg (p_pat p)) (p_pat p'') ->
+    (forall T, In T (glued_of_pf pref 0%N host p) -> exists T'', In T'' (glued_of_pf pref 0%N host'' p'') /\ obs_eq (relabel pi T) T'') /\
+    (forall T'', In T'' (glued_of_pf pref 0%N host'' p'') -> exists T, In T (glued_of_pf pref 0%N host p) /\ obs_eq (relabel pi T) T'').
+Proof. exact thm_result_set_invariant_exhaustive_any_options. Qed.
+Print Assumptions C05_result_set_invariant_exhaustive_any_options.
+
+(** 21. 3' under every cap, with the weakest possible premise: the component-aware strategy AND the fallback strategy return
+    subsets of the exhaustive strategy whenever the EXHAUSTIVE search is not over the cap — nothing is asked of the
+    component-aware search (under a cap it returns its limit-free result or nothing, 14b).  13' / 14d show that the premise
+    cannot be dropped: it is exactly the known finding "capped:comp-subset". *)
+Theorem C05_strategy_subset_any_cap :
+  forall (TH : Thr) (host : hostg) (pat : molg),
+    gwf (host_c06 host) -> gwf (pat_c06 pat) ->
+    (C06_Model.lenN (enum_all host pat) <= thr_val)%N ->
+    (forall m, In m (matches 1%N host pat) -> exists m', In m' (matches 0%N host pat) /\ Permutation m m') /\
+    (forall m, In m (matches 2%N host pat) -> exists m', In m' (matches 0%N host pat) /\ Permutation m m').
+Proof. exact thm_strategy_subset_any_cap. Qed.
+Print Assumptions C05_strategy_subset_any_cap.
+
+(** 22. 3'' with the weaker premise: every glued ITS graph of the component-aware and of the fallback strategy is, up to
+    [obs_eq], a glued ITS graph of the exhaustive strategy whenever the EXHAUSTIVE search is not capped ([side_okb] instead
+    of [side_okb_c]: nothing is asked of the component-aware search).  Proved by changing the cap — every theorem holds
+    for every cap: under the larger cap max(cap, bound of the component-aware search) 3'' applies, the exhaustive result
+    is the same under both caps, and the component-aware / fallback result under the smaller cap is empty or a result
+    under the larger one (14b). *)
+Theorem C05_strategy_subset_results_any_cap :
+  forall (TH : Thr) (host : hostg) (p : prepared), side_okb host p = true ->
+    (forall T, In T (glued_of 1%N host p) -> exists T', In T' (glued_of 0%N host p) /\ obs_eq T T') /\
+    (forall T, In T (glued_of 2%N host p) -> exists T', In T' (glued_of 0%N host p) /\ obs_eq T T').
+Proof. exact thm_strategy_subset_results_any_cap. Qed.
+Print Assumptions C05_strategy_subset_results_any_cap.
